@@ -4,7 +4,7 @@
 //	setprobe set  <dir> <keyhex> <valhex>            fileStorage.Set
 //	setprobe save <dir> <namehex> <pubhex> <privhex> database.SaveEntity
 //	setprobe cfg  <dir> <idhex> <versionhex> <hashhex>   the three consecutive Sets of Config.save (config.go)
-//	setprobe start <dir> <pin> <name>                hc.NewIPTransport on the directory (one switch accessory), not started
+//	setprobe start <dir> <pin> <name> [lightbulb]    hc.NewIPTransport on the directory (one switch / lightbulb accessory), not started
 //	setprobe relstore <base> <rel> <keyhex> <valhex> chdir(base); NewFileStorage(rel); Set; chdir("/"); Get and list → stdout
 package main
 
@@ -41,9 +41,12 @@ func main() {
 		fmt.Fprintln(os.Stderr, "usage: setprobe set|save|cfg <dir> …")
 		os.Exit(3)
 	}
-	if os.Args[1] == "start" && len(os.Args) == 5 {
-		sw := accessory.NewSwitch(accessory.Info{Name: os.Args[4]})
-		if _, err := hc.NewIPTransport(hc.Config{StoragePath: os.Args[2], Pin: os.Args[3]}, sw.Accessory); err != nil {
+	if os.Args[1] == "start" && (len(os.Args) == 5 || len(os.Args) == 6) {
+		sw := accessory.NewSwitch(accessory.Info{Name: os.Args[4]}).Accessory
+		if len(os.Args) == 6 && os.Args[5] == "lightbulb" {
+			sw = accessory.NewLightbulb(accessory.Info{Name: os.Args[4]}).Accessory // another structure
+		}
+		if _, err := hc.NewIPTransport(hc.Config{StoragePath: os.Args[2], Pin: os.Args[3]}, sw); err != nil {
 			fmt.Fprintln(os.Stderr, "setprobe:", err)
 			os.Exit(1)
 		}
